@@ -31,6 +31,14 @@ CHECKS = {
              ref="§5 C09", note="LMDB via the contract model; histories of 2 events (3 in C10); SQL side: see evidence. "),
  "C10": dict(text="LMDB key set == tombstone + primary + index keys (reference layout) of the stored events after 20 families of histories (add, duplicate add, delete stored/unknown id, replaceable, parameterised replaceable, kind-5, ephemeral) with symbolic authors/timestamps and tag shapes by selector; write/clear symmetry for symbolic kind/created_at.",
              ref="§5 C10", note="LMDB via the contract model stubs/lmdb; msgpack identity stub; FTS index (whoosh) absent and outside. "),
+ "C05": dict(text="Live matching (check_event) equals the real LMDB residual matcher for 6 filter shapes with symbolic ints and solver-selected strings (excused: ephemeral kinds, bound timestamps, LMDB delegation); fan-out over a registry of 2 connections x <=2 subscriptions (same sub id on both, closed and replaced subscriptions) delivers each of two consecutive events exactly once per matching open subscription.",
+             ref="§5 C05", note="loop model envmodel/fake_asyncio.py (FIFO ready queue; environment chooses who speaks next); stored-query tasks stubbed; arbitrary interleavings of relay-internal tasks beyond that model are outside. "),
+ "C06": dict(text="Exactly one OK frame per EVENT through the real handler for every storage outcome/throttle/limiter/payload combination; LMDB: OK true implies the event is retrievable after the writer ran (boundary timestamps/kinds 2^31..2^64, tag shapes), refusal leaves no trace, duplicate is not acknowledged or broadcast again.",
+             ref="§5 C06", note="writer thread body executed synchronously on the lmdb model; msgpack identity stub (64-bit overflow of tag ints not modelled); SQL side: see evidence. "),
+ "C13": dict(text="Every REQ shape (6 sub-id types x 8 filter-list shapes x 0-2 stored events x permission) is answered by stored events + exactly one EOSE or by a NOTICE; message sequences REQ/CLOSE/replace on one connection followed by another connection's EVENT: EOSE/NOTICE counts, live delivery only to open matching subscriptions, limit respected, registry empty after disconnect.",
+             ref="§5 C13", note="loop model: the client's next message is delivered when the relay is idle; stored-query body stubbed by its contract (events then one sentinel). "),
+ "C19": dict(text="One symbolic parsed message (8 heads x 32 JSON values of every type x 6 x arity, or a bare value) in 3 handler modes, followed by a probe REQ and a disconnect, next to a second connection: no exception escapes, the probe is answered or the socket closed, only protocol frames are sent, registry and tasks cleaned up, the other connection untouched.",
+             ref="§5 C19", note="raw text -> JSON (rapidjson) assumed to return a JSON value or raise JSONDecodeError; sizes/nesting depth are resource questions outside. "),
 }
 NA = {}
 def main():
